@@ -133,6 +133,7 @@ class Cons:
         self.lb = lb
         self.ub = ub
         self.name = name
+        self.primal = None
 
     @property
     def variables(self):
@@ -241,6 +242,8 @@ class Formulation:
 
 
 class SolverStub:
+    interface = Problem
+
     def __init__(self, variables, objective):
         self.variables = Container(variables)
         self.constraints = Container()
@@ -256,6 +259,7 @@ class RxnLP:
         self.upper_bound = ub
         self.forward_variable = Var(rid, lb=max(lb, 0.0), ub=max(ub, 0.0))
         self.reverse_variable = Var(rid + "_reverse", lb=max(-ub, 0.0), ub=max(-lb, 0.0))
+        self.boundary = False
 
     @property
     def flux_expression(self):
@@ -345,7 +349,10 @@ class ModelLP:
         self._stack: List[Tuple] = []
         self.flux_table: Dict[int, Dict[str, float]] = {}
         self.script = None  # callable(model, formulation) -> (value, fluxes, status): plays the solver
-        self.last_fluxes: Optional[Dict[str, float]] = None
+        # the model has been optimised before, under other conditions: stale status / value / fluxes are lying around
+        self.last_fluxes: Optional[Dict[str, float]] = {r.id: 5.0 for r in reactions}
+        self.solver.status = "optimal"
+        self.solver.objective.value = 42.0
         self.exchanges: List[RxnLP] = []
         self.copies: List["ModelCopy"] = []
         for r in reactions:
@@ -442,6 +449,15 @@ class ModelLP:
             v, fluxes, status = self.script(self, f)
             self.last_fluxes = dict(fluxes)
             self.solver.status = status
+            values = {}
+            for r in self.reactions:
+                values[r.forward_variable] = max(fluxes.get(r.id, 0.0), 0.0)
+                values[r.reverse_variable] = max(-fluxes.get(r.id, 0.0), 0.0)
+            for c in self.solver.constraints.items:
+                if all(x in values for x in c.expression.terms):
+                    c.primal = sum(k * values[x] for x, k in c.expression.terms.items()) + c.expression.const
+                else:
+                    c.primal = None
             self.flux_table[len(self.solves) + 1] = dict(fluxes)
         else:
             if not self._values:
@@ -468,6 +484,23 @@ class ModelLP:
             self.solver.objective.direction = original
         n = len(self.solves)
         return SolutionLP(f, list(self.reactions), v, self.fluxes_of(n) if self.script is None else dict(self.last_fluxes or {}))
+
+    @property
+    def medium(self):
+        return {r.id: -r.lower_bound for r in self.exchanges if r.lower_bound < 0}
+
+    @medium.setter
+    def medium(self, value):
+        # Model.medium for exchanges written `met <=>`: the import bound is the (negated) lower bound; exchanges
+        # that are not listed get their import closed; export bounds are untouched
+        for r in self.exchanges:
+            if r.id in value:
+                r.lower_bound = -float(value[r.id])
+            else:
+                r.lower_bound = min(0.0, max(r.lower_bound, 0.0))
+        for k in value:
+            if k not in {r.id for r in self.exchanges}:
+                raise KeyError(k)
 
     def copy(self):
         c = ModelCopy(self)
